@@ -5,6 +5,7 @@ CONSTANTS
   MaxV = 200
   Tset = 1
   WithIntr = TRUE
+  IntrWin = 300
 SPECIFICATION VSpecFair
 PROPERTY IntrConverges
 CHECK_DEADLOCK FALSE
